@@ -165,6 +165,48 @@ def assigned_names(stmts) -> set:
     return out
 
 
+MUTATORS = {"append", "extend", "insert", "pop", "remove", "clear", "sort", "reverse", "update", "add", "discard",
+            "setdefault", "popitem", "fill", "resize", "put", "appendleft", "popleft"}
+
+
+def mutated_names(stmts) -> set:
+    """Local names whose object is modified in place somewhere in the block (syntactic scan)."""
+    out = set()
+
+    def root(n):
+        while isinstance(n, (ast.Subscript, ast.Attribute)):
+            n = n.value
+        return n.id if isinstance(n, ast.Name) else None
+
+    for st in stmts:
+        for n in ast.walk(st):
+            if isinstance(n, ast.Call) and isinstance(n.func, ast.Attribute) and n.func.attr in MUTATORS:
+                if isinstance(n.func.value, ast.Name):
+                    out.add(n.func.value.id)
+            elif isinstance(n, (ast.Assign, ast.AugAssign, ast.AnnAssign, ast.Delete)):
+                tg = n.targets if isinstance(n, (ast.Assign, ast.Delete)) else [n.target]
+                for t in tg:
+                    for e in (t.elts if isinstance(t, (ast.Tuple, ast.List)) else [t]):
+                        if isinstance(e, (ast.Subscript, ast.Attribute)):
+                            r = root(e)
+                            if r:
+                                out.add(r)
+    out.discard("self")
+    out.discard("cls")
+    return out
+
+
+def _is_obj(v: "P") -> bool:
+    a = v.as_atom()
+    return bool(a and a[0] == "obj")
+
+
+def obj_init(v: "P"):
+    """Initial value of an ('obj', name, k, init) atom, else the value itself."""
+    a = v.as_atom()
+    return a[3] if a and a[0] == "obj" else v
+
+
 class Ev:
     """Evaluate one function (or a list of statements)."""
 
@@ -212,6 +254,8 @@ class Ev:
         if params:
             self.env.update(params)
         self.body = body
+        self.mutated = mutated_names(body)
+        self.obj_counter = 0
 
     def run(self):
         self.block(self.body)
@@ -289,6 +333,10 @@ class Ev:
 
     def assign(self, t, v: P, st):
         if isinstance(t, ast.Name):
+            if t.id in self.mutated and not _is_obj(v) and t.id not in self.param_names:
+                # a local container that is modified in place keeps its identity instead of being inlined
+                v = P.atom(("obj", t.id, self.obj_counter, v))
+                self.obj_counter += 1
             self.env[t.id] = v
             self.emit("assign", st, target=P.name(t.id), value=v, name=t.id)
         elif isinstance(t, (ast.Tuple, ast.List)):
@@ -577,6 +625,10 @@ class Ev:
 
     def binop(self, op, a: P, b: P) -> P:
         try:
+            if op == "Add" and (is_pyseq(a) or is_pyseq(b)):
+                return concat(a, b)
+            if op == "Mult" and (is_pyseq(a) or is_pyseq(b)):
+                return P.atom(("repeat", a, b) if is_pyseq(a) else ("repeat", b, a))
             if op == "Add":
                 return a + b
             if op == "Sub":
@@ -824,6 +876,37 @@ def matrix_items(v: P):
             return None
         out.append(list(it))
     return out
+
+
+def is_pyseq(v: P) -> bool:
+    """Definitely a Python list/tuple/str (so that + is concatenation, not arithmetic)."""
+    a = v.as_atom()
+    if not a:
+        return False
+    if a[0] in ("tuple", "str", "fstr", "concat", "repeat"):
+        return True
+    if a[0] == "obj":
+        return is_pyseq(a[3])
+    if a[0] == "comp":
+        return a[1] == "ListComp"
+    if a[0] == "call":
+        c = a[1].as_atom()
+        if c and c[0] == "name" and c[1] in ("list", "tuple", "sorted", "str"):
+            return True
+        if c and c[0] == "attr" and c[2] in ("join", "format", "splitlines", "split", "strip", "lower", "upper"):
+            return True
+    return False
+
+
+def concat(a: P, b: P) -> P:
+    items = []
+    for x in (a, b):
+        xa = x.as_atom()
+        if xa and xa[0] == "concat":
+            items.extend(xa[1])
+        else:
+            items.append(x)
+    return P.atom(("concat", tuple(items)))
 
 
 def transpose(x: P) -> P:
